@@ -712,6 +712,8 @@ func checkSizer(c *core.Ctx) {
 				return false
 			}
 			conf := ni.Conflicts([]int{0, 2}, []string{"min", "max"})
+			// the capacity must be one of the two (validated) limits: anything else makes acceptance depend on the flag
+			conf = append(conf, ni.NotAmong(1, []int{0, 2}, []string{"capacity", "the returned min", "the returned max (so Memory.Validate can reject the module only with the flag set)"})...)
 			c.Count("sizer_paths", ni.PathCount())
 			c.Check(len(conf) == 0, "R14.3", "sizer non-interference in "+fd.Name.Name, lit.Pos(),
 				fmt.Sprintf("%d syntactic paths; min and max are the same expression with and without the capacity flag", ni.PathCount()),
